@@ -942,6 +942,10 @@ func (r *Run) conv(fr *frame, instr *ssa.Convert, tdst, tsrc types.Type, x Value
 				if xv.concrete() {
 					return mkFloat(xv.v, f32)
 				}
+				if f32 && !xv.f32 && xv.t != nil && !r.eng.cfg.RealFloats {
+					// narrowing conversion of an opaque float: uninterpreted function of the value
+					return Float{t: r.tt.UF("cvt64to32", SReal, xv.t, nil), f32: true}
+				}
 				xv.f32 = f32
 				return xv
 			case db.Info()&types.IsInteger != 0:
